@@ -15,10 +15,12 @@ pub fn fid(name: &str) -> FileId {
 }
 
 pub fn parse(text: &str, file: &str) -> Result<Library, Diagnostic> {
+    let _w = crate::util::watch::enter(text);
     parse_program(text, &fid(file), &ParseOptions::default())
 }
 
 pub fn tokenize(text: &str, file: &str) -> (Vec<Token>, Vec<Diagnostic>) {
+    let _w = crate::util::watch::enter(text);
     tokenize_program(text, &fid(file), &ParseOptions::default())
 }
 
@@ -57,6 +59,7 @@ impl Verdict {
 /// `FileBackedProject::semantic` is specified to do, but directly on the library API:
 /// any parse error makes the verdict Err with that code.
 pub fn check_texts(texts: &[&str]) -> (Verdict, Vec<Diagnostic>) {
+    let _w = crate::util::watch::enter(&texts.join("\n(* next file *)\n"));
     let r: Result<(Verdict, Vec<Diagnostic>), Panicked> = catch(|| {
         let mut libs = vec![];
         let mut diags = vec![];
@@ -88,6 +91,7 @@ pub fn check_texts(texts: &[&str]) -> (Verdict, Vec<Diagnostic>) {
 }
 
 pub fn analyze_libs(libs: &[&Library]) -> (Verdict, Vec<Diagnostic>) {
+    let _w = crate::util::watch::enter("<analysis of already parsed libraries; see the enclosing case>");
     match catch(|| analyze(libs)) {
         Ok(Ok(())) => (Verdict::Ok, vec![]),
         Ok(Err(ds)) => {
